@@ -144,6 +144,57 @@ H3Index Gen::anyCellOrBad() {
 Op Gen::compactOp() {
     Op op;
     op.fn = FN_compactCells;
+    // pipeline inputs: what callers really feed into compactCells — the raw,
+    // zero-padded output array of gridDisk near a pentagon (zeros in the
+    // middle, at the end, sometimes first) or of polygonToCells (hash layout,
+    // mostly zeros, frequently starting with a zero)
+    if (r.chance(0.12)) {
+        int res = (int)r.range(1, 15);
+        int k = (int)r.range(1, 6);
+        H3Index origin = r.chance(0.7) ? nearPentagon(res, k) : pentagon(res);
+        int64_t sz = 0;
+        REF.maxGridDiskSize(k, &sz);
+        std::vector<H3Index> raw((size_t)sz, 0);
+        REF.gridDisk(origin, k, raw.data());
+        if (r.chance(0.4)) {  // zeros first: rotate so that a zero leads
+            for (size_t i = 0; i < raw.size(); i++)
+                if (raw[i] == 0) {
+                    std::rotate(raw.begin(), raw.begin() + i, raw.end());
+                    break;
+                }
+        }
+        if (r.chance(0.3)) raw.insert(raw.begin(), (size_t)r.range(1, 3), 0);
+        op.cells = raw;
+        op.tag = "pipeline-raw-gridDisk";
+        return op;
+    }
+    if (r.chance(0.08)) {
+        Op poly = polygonOp(FN_polygonToCells, 300);
+        Result rr = execOp(REF, poly, ExecOpts());
+        if (rr.status == CALL_RETURNED && rr.rc == E_SUCCESS && rr.out.size() >= 8) {
+            op.cells.resize(rr.out.size() / 8);
+            memcpy(op.cells.data(), rr.out.data(), op.cells.size() * 8);
+            if (op.cells.size() > 4000) op.cells.resize(4000);
+            op.tag = "pipeline-raw-polygonToCells";
+            return op;
+        }
+    }
+    // whole base cells: compaction proceeds all the way to resolution 0
+    if (r.chance(0.1)) {
+        int R = r.chance(0.7) ? 1 : 2;
+        int n = (int)r.range(1, R == 1 ? 122 : 24);
+        std::vector<int> bcs;
+        for (int i = 0; i < 122; i++) bcs.push_back(i);
+        r.shuffle(bcs);
+        for (int i = 0; i < n; i++) {
+            std::vector<H3Index> ch = refChildren(RES0[bcs[i]], R);
+            op.cells.insert(op.cells.end(), ch.begin(), ch.end());
+        }
+        if (r.chance(0.3) && !op.cells.empty()) op.cells.erase(op.cells.begin() + r.below(op.cells.size()));
+        if (r.chance(0.7)) r.shuffle(op.cells);
+        op.tag = "whole-basecells-to-res0";
+        return op;
+    }
     int R = (int)r.range(1, 15);
     if (r.chance(0.5)) R = (int)r.range(1, 6);
     std::vector<H3Index> cells;
@@ -667,6 +718,26 @@ Op Gen::c17Op() {
 std::vector<H3Index> Gen::cellSet(int maxCells, std::string &tag) {
     int res = (int)r.below(16);
     std::vector<H3Index> cells;
+    // concentric hollow rings: holes nested in several outer loops (islands in
+    // holes in islands ...), which is what findPolygonForHole has to sort out
+    if (r.chance(0.12)) {
+        int rings = (int)r.range(2, 5);
+        H3Index center = r.chance(0.3) ? nearPentagon(res, 3) : randCell(res);
+        int radius = 1;
+        std::set<H3Index> acc;
+        for (int i = 0; i < rings; i++) {
+            std::vector<H3Index> outer = refDisk(center, radius), inner = refDisk(center, radius - 1);
+            std::set<H3Index> in(inner.begin(), inner.end());
+            for (auto c : outer)
+                if (!in.count(c)) acc.insert(c);
+            radius += 2;
+        }
+        if (r.chance(0.3)) acc.insert(center);
+        cells.assign(acc.begin(), acc.end());
+        if (r.chance(0.7)) r.shuffle(cells);
+        tag = "concentric-rings-" + std::to_string(rings) + " ";
+        return cells;
+    }
     int comps = 1;
     double u = r.unit();
     if (u > 0.6) comps = 2;
@@ -1023,7 +1094,7 @@ Op Gen::anyOp(int scale, int forcedFn) {
 
 // ------------------------------------------------------------- catalogue ----
 namespace {
-const int64_t CAT_NBR = 16 * 12 * 4, CAT_DISK = 16 * 12 * 2 * 2, CAT_COMPACT = 15 * 6,
+const int64_t CAT_NBR = 16 * 12 * 4, CAT_DISK = 16 * 12 * 2 * 2, CAT_COMPACT = 15 * 6 + 8,
               CAT_POLY = 10 * 12 * 7;
 H3Index atDistance(H3Index origin, int d) {
     std::vector<H3Index> disk = refDisk(origin, d);
@@ -1093,6 +1164,25 @@ bool Gen::catalogueC17(int64_t idx, Op &op) {
         return true;
     }
     idx -= CAT_DISK;
+    if (idx >= 15 * 6 && idx < CAT_COMPACT) {
+        // whole base cells (compaction reaches resolution 0) and zero-padded inputs
+        int v = (int)(idx - 15 * 6);
+        op.fn = FN_compactCells;
+        int R = (v & 1) ? 2 : 1;
+        int n = v < 2 ? 6 : v < 4 ? 12 : v < 6 ? 40 : 7;
+        for (int i = 0; i < n; i++) {
+            H3Index bc = v < 4 && v >= 2 ? PENT[0][i % 12] : RES0[(i * 5 + v) % 122];
+            std::vector<H3Index> ch = refChildren(bc, R);
+            op.cells.insert(op.cells.end(), ch.begin(), ch.end());
+        }
+        if (v >= 6) {  // leading and embedded zeros
+            op.cells.insert(op.cells.begin(), 0);
+            op.cells.insert(op.cells.begin() + op.cells.size() / 2, 0);
+            op.cells.push_back(0);
+        }
+        op.tag = v >= 6 ? "catalogue:zero-padded" : "catalogue:whole-basecells";
+        return true;
+    }
     if (idx < CAT_COMPACT) {
         int v = (int)(idx % 6), R = 1 + (int)(idx / 6);
         int d = std::min(R, 3);
@@ -1169,10 +1259,26 @@ bool Gen::catalogueC17(int64_t idx, Op &op) {
     return false;
 }
 
-int64_t Gen::catalogueC16Size() { return 16 * 12 * 3; }
+int64_t Gen::catalogueC16Size() { return 16 * 12 * 3 + 16 * 3; }
 bool Gen::catalogueC16(int64_t idx, Op &op) {
     op = Op();
     if (idx < 0 || idx >= catalogueC16Size()) return false;
+    if (idx >= 16 * 12 * 3) {
+        // concentric hollow rings (2, 3, 4 levels of nesting) at every resolution
+        int j = (int)(idx - 16 * 12 * 3), rings = 2 + j % 3, res = j / 3;
+        H3Index center = atDistance(PENT[res][(res * 7) % 12], res == 0 ? 1 : 4);
+        op.fn = FN_cellsToLinkedMultiPolygon;
+        std::set<H3Index> acc;
+        for (int i = 0, radius = 1; i < rings; i++, radius += 2) {
+            std::vector<H3Index> outer = refDisk(center, radius), inner = refDisk(center, radius - 1);
+            std::set<H3Index> in(inner.begin(), inner.end());
+            for (auto c : outer)
+                if (!in.count(c)) acc.insert(c);
+        }
+        op.cells.assign(acc.begin(), acc.end());
+        op.tag = "catalogue:concentric-rings-" + std::to_string(rings);
+        return true;
+    }
     int v = (int)(idx % 3), p = (int)((idx / 3) % 12), res = (int)(idx / 36);
     H3Index pent = PENT[res][p];
     op.fn = FN_cellsToLinkedMultiPolygon;
